@@ -666,7 +666,7 @@ pub fn run(ctx: &ChildCtx, sh: &mut Shard) {
             }
         }
         if changed_ok {
-            run.sh.nontrivial(vmon_core::mix(&[vmon_core::fnv(e.name.as_bytes()), vmon_core::fast_hash(&b)]));
+            util::nt(run.sh, vmon_core::mix(&[vmon_core::fnv(e.name.as_bytes()), vmon_core::fast_hash(&b)]));
         }
         if idx < 3 {
             let name = e.name;
